@@ -200,6 +200,11 @@ def value_forms(kind, m, same):
                 s[pos] = wider
                 s[(pos + 1) % m] = incompat
                 seqs.append(s)
+            if m >= 2 and wider is not None:
+                s = list((list(same) * 3)[:m])        # a promoting value AND a None in one assignment
+                s[pos] = wider
+                s[(pos + 1) % m] = None
+                seqs.append(s)
         seqs.append((list(same) * 3)[:m + 1])
         if m >= 1:
             seqs.append((list(same) * 3)[:m - 1])
